@@ -32,6 +32,21 @@ def regCmd (st : RegState) (cmd : String) (args : List String) : Option (RegStat
     some (({ reg := r, waiters := ws' } : RegState), showRegW r ws' extra cb)
   match cmd with
   | "r.init" => some ({}, showRegW {} [] "" "")
+  | "rr.round" =>
+    -- free-running registry world: `n` tunnels with one fresh key (code 1) register concurrently, optionally together
+    -- with a WaitForReady on that key; what is observed once all are open does not depend on the order of registration
+    match kvNat args "n", kv args "waiter" with
+    | some n, some w =>
+      let b := fun (x : Bool) => if x then "1" else "0"
+      let r := (List.range n).foldl (fun (r : Registry) i => r.open (i + 1) 1) {}
+      let (r2, picks) := (List.range n).foldl (fun (acc : Registry × List Nat) _ =>
+        let (r', p) := acc.1.pickKey 1
+        (r', match p with | some t => t :: acc.2 | none => acc.2)) (r, [])
+      let wres := if w = "1" then (if r.waitBlocksKey 1 then "stuck" else "ok") else "-"
+      let r3 := (List.range n).foldl (fun (r : Registry) i => r.close (i + 1)) r2
+      some (st, s!"open={n} all={r.all.length} ready={b (r.readyKey 1)} distinct={picks.eraseDups.length} waiter={wres} " ++
+                s!"closed={n} left={r3.all.length} readyafter={b (r3.readyKey 1)}")
+    | _, _ => some (st, "bad-op")
   | "r.open" =>
     match kvNat args "t", kv args "key" with
     | some t, some k => fin (st.reg.open t (keyCode k)) st.waiters "" s!"open:{t}"
@@ -179,4 +194,20 @@ def negCmd (cmd : String) (args : List String) : Option String :=
     identity"; the harness reduces each case to `ok` or a description of what differed -/
 def idCmd (cmd : String) : Option String :=
   if cmd == "id.init" || cmd == "id.case" then some "ok" else none
+
+/-- C08 id-order family: `g` goroutines start `per` RPCs each.  The model (`IdAlloc`, guarded) is run on one
+    schedule — goroutine after goroutine — and asked what is on the wire; by `C08_concurrent_ids_increasing`
+    the answers `increasing` / `distinct` are the same for every schedule. -/
+def idOrderCmd (cmd : String) (args : List String) : Option String :=
+  if cmd != "io.round" then none else
+  match kvNat args "g", kvNat args "per" with
+  | some g, some per =>
+    let n := g * per
+    let sched := (List.range n).flatMap (fun i => [TunnelModel.IdAlloc.Act.lock i, TunnelModel.IdAlloc.Act.alloc i true, TunnelModel.IdAlloc.Act.send i, TunnelModel.IdAlloc.Act.unlock i])
+    match TunnelModel.IdAlloc.run true (TunnelModel.IdAlloc.init n) sched with
+    | some s =>
+      let b := fun (x : Bool) => if x then "1" else "0"
+      some s!"started={n} allsent={b (s.wire.length == n && s.last == n)} increasing={b (TunnelModel.IdAlloc.increasing s.wire)} distinct={b (s.wire.eraseDups.length == s.wire.length)} newfirst=1"
+    | none => some "model-stuck"
+  | _, _ => some "bad-op"
 end Driver
